@@ -32,6 +32,9 @@ if mods:
         'LbzVerif.Props.C09.Sched.output_eq',
         'LbzVerif.Props.C09.Retrieve.retrieve_split',
         'LbzVerif.Props.C09.Retrieve.fast_eq_slow',
+        'LbzVerif.Props.C09.File.sched_output_is_expandFile',
+        'LbzVerif.Props.C09.File.sched_failed_is_expandFile_error',
+        'LbzVerif.Props.C09.File.sched_output_indep',
     ])
 inproc.run_libs(ck, ['w12_emit', 'w15_retrieve'])
 exe = ck.build_lbzip2(asan=False)
